@@ -27,7 +27,7 @@ ASSUMPTIONS = [
     "interleavings are explored at the granularity of environment suspension points (task body, result backend, async ack)",
 ]
 TRUSTED = ["CPython asyncio (real, on a virtual clock)", "vt.sym explorer", "recording stubs in vt/props/_recv.py"]
-BOUNDS = {"messages": "1 (all configurations) and 2 concurrent (reduced outcome set)", "middlewares": "<= 1", "timer ticks": "<= 6"}
+BOUNDS = {"messages": "1 (all configurations); 2 concurrent (2 outcomes quick / all 6 thorough); 3 concurrent (thorough, reduced)", "middlewares": "<= 1", "timer ticks": "<= 6"}
 REQUIRED_COVERS = ["when_received", "when_executed", "when_saved", "async_ack", "sync_ack", "timeout_fired", "no_result", "backend_failed", "pair_interleaved"]
 
 
@@ -37,10 +37,14 @@ def cases(tier: str) -> List[Any]:
         out.append({"n": 1, "ack": ack, "async_ack": "future"})
         for async_ack in (False, True):
             out.append({"n": 1, "ack": ack, "async_ack": async_ack})
-            pair_out = ("return", "raise_exc") if tier == "quick" else ("return", "raise_exc", "no_result")
+            pair_out = ("return", "raise_exc") if tier == "quick" else _cb.OUTCOMES
             for o0 in pair_out:
                 out.append({"n": 2, "ack": ack, "async_ack": async_ack, "target": "async", "outcome0": o0,
                             "timeout_label0": False, "timeout_label1": False, "pair_outcomes": pair_out})
+            if tier == "thorough":
+                for o0 in ("return", "raise_exc", "timeout"):
+                    out.append({"n": 3, "ack": ack, "async_ack": async_ack, "target": "async", "outcome0": o0, "timeout_label0": False,
+                                "timeout_label1": False, "timeout_label2": False, "backend_fail2": False, "pair_outcomes": ("return", "raise_exc")})
     return out
 
 
@@ -73,8 +77,9 @@ def check_ack(c: sym.Ctx, lab: Any, i: int, ack: str) -> None:
 def harness(c: sym.Ctx, case: Dict[str, Any]) -> None:
     spec = {k: v for k, v in case.items() if k not in ("n", "pair_outcomes")}
     n = case["n"]
-    if n == 2:
-        spec["outcome1"] = c.choose(list(case["pair_outcomes"]), "outcome1")
+    if n >= 2:
+        for k in range(1, n):
+            spec[f"outcome{k}"] = c.choose(list(case["pair_outcomes"]), f"outcome{k}")
         spec["mws"] = []
     else:
         spec["mws"] = [{"pre_execute": "sync", "post_execute": "sync", "post_save": "sync", "on_error": "sync"}] if c.flag("with_mw") else []
